@@ -316,29 +316,7 @@ func c18ReaderDecoder(r *Run) {
 	r.Import("Model.TpduReaderRun")
 	corpus := smsHexList(c18Corpus)
 	one := func(in []byte, sched []int, eofd bool, strict bool, label string) {
-		o := smsRunReader(&schedReader{data: append([]byte{}, in...), sched: append([]int{}, sched...), eofWithData: eofd})
-		sc := make([]string, len(sched))
-		for j, x := range sched {
-			sc[j] = fmt.Sprintf("%d%%nat", x)
-		}
-		r.Count(fmt.Sprintf("readerdec/%s/%x/%v/%v", label, in, sched, eofd), len(in) > 2, "whole decoder on a chunked reader, model on the same schedule")
-		emit := r.Advisory
-		if strict {
-			emit = r.Case
-		}
-		desc := fmt.Sprintf("reader decoder %s %x sched %v eof-with-data %v", label, in, sched, eofd)
-		if len(desc) > 300 {
-			desc = desc[:300] + "..."
-		}
-		if o.Class == 2 {
-			r.Fail("unmarshal-panic/reader/"+label, "sms.Unmarshal panicked behind a chunking reader", "smsdec "+hex.EncodeToString(in),
-				"panic: "+o.PanicMsg, "an error or one of the eight TPDU structures")
-		}
-		if o.Class == 0 && o.ValidType {
-			emit(desc, fmt.Sprintf("sms_reader_dec_is %s %s %s \"%s\" %s", coqHex(in), coqList(sc), coqBool(eofd), o.Name, o.Term))
-		} else {
-			emit(desc, fmt.Sprintf("sms_reader_class %s %s %s =? %d", coqHex(in), coqList(sc), coqBool(eofd), o.Class))
-		}
+		smsReaderCase(r, in, sched, eofd, strict, label, "smsdec "+hex.EncodeToString(in))
 	}
 	for i, in := range corpus {
 		strict := i < c18Pinned
